@@ -3,6 +3,8 @@
 Ghost: request counter k, quotient q.   Invariant I(k):  0 <= _next_i < n  and  _next_i == k - n*q   (i.e. k mod n)
 Obligations (all n >= 1, all k, inner request havocked: returns anything or raises anything):
    the inner request is sent to nodes[k mod n];  after the call (both exits)  I(k+1) holds.
+The request is issued through `request` itself AND through each of the inherited wrappers get / post / put / delete, resolved on
+the real class (MRO), with opaque params / json / timeout: every way of sending a request counts as request number k.
 """
 import z3
 from vlib.pyvc import Engine, RaiseEx, Sym, Obj, Z, ZB, Unsupported
@@ -38,9 +40,37 @@ class GNode:
         self.owner, self.idx = owner, idx
 
     def __pyvc_attr__(self, eng, name):
-        if name == 'request':
+        if name in ('request', 'get', 'post', 'put', 'delete'):     # any way of sending a request to THIS node is recorded
             return _Req(self)
         raise Unsupported('node.' + name)
+
+
+class GOkResp:
+    """the inner node's successful response (an opaque body)"""
+    __pyvc_symbolic__ = True
+
+    def __init__(self, idx):
+        self.idx = idx
+
+    def __pyvc_attr__(self, eng, name):
+        if name == 'json':
+            return _Json(self)
+        if name == 'text':
+            return '<text>'
+        raise Unsupported('response.' + name)
+
+
+class _Json:
+    __pyvc_symbolic__ = True
+
+    def __init__(self, r):
+        self.r = r
+
+    def __pyvc_call__(self, eng, args, kwargs):
+        return ('json of the response of node', self.r.idx)
+
+
+HOWS = ('request', 'get', 'post', 'put', 'delete')
 
 
 class _Req:
@@ -54,7 +84,7 @@ class _Req:
         ok = z3.Bool('inner_ok')
         eng.inputs['inner_ok'] = ('bool', ok)
         if eng.fork(ok):
-            return ('response', self.node.idx)
+            return GOkResp(self.node.idx)
         # the inner request may fail with any exception: the node's RpcError or anything else (connection errors …)
         rpc = z3.Bool('inner_raises_RpcError')
         eng.inputs['inner_raises_RpcError'] = ('bool', rpc)
@@ -64,8 +94,10 @@ class _Req:
         raise RaiseEx(_Boom('inner request failed'))
 
 
-def harness():
+def harness(how='request'):
     from pytezos.rpc.node import RpcMultiNode
+    from vlib.pyvc import Opaque
+    tag = 'RpcMultiNode.request' if how == 'request' else f'RpcMultiNode.{how}'
 
     def h(e: Engine):
         n = e.int('n', lo=1).e
@@ -79,21 +111,44 @@ def harness():
         o.f['_next_i'] = Sym(i)
         exc = None
         try:
-            e.call(BoundM(e.unwrap(RpcMultiNode.__dict__['request']), o), ['GET', 'path'], {})
+            if how == 'request':
+                e.call(BoundM(e.unwrap(RpcMultiNode.__dict__['request']), o), ['GET', 'path'], {})
+            else:
+                # the wrapper as the real class resolves it (RpcNode.get/post/put/delete unless RpcMultiNode overrides it)
+                kw = {'params': Opaque('<params>'), 'timeout': Opaque('<timeout>')}
+                if how == 'post':
+                    kw['json'] = Opaque('<json>')
+                e.call(e.getattr_(o, how), ['path'], kw)
             exit_kind = 'normal'
         except RaiseEx as ex:
             exc, exit_kind = ex.exc, 'exceptional'
         from pytezos.rpc.node import RpcError
         if exc is not None and not isinstance(exc, (_Boom, RpcError)):
-            e.check(f'RpcMultiNode.request::safety.no_own_exception[{type(exc).__name__}]', z3.BoolVal(False))
+            e.check(f'{tag}::safety.no_own_exception[{type(exc).__name__}]', z3.BoolVal(False))
             return
-        e.check('RpcMultiNode.request::ensures.one_inner_request', z3.BoolVal(len(nodes.used) == 1))
+        e.check(f'{tag}::ensures.one_inner_request', z3.BoolVal(len(nodes.used) == 1))
         if len(nodes.used) == 1:
-            e.check('RpcMultiNode.request::ensures.sent_to_node[k mod n]', nodes.used[0] == i)
+            e.check(f'{tag}::ensures.sent_to_node[k mod n]', nodes.used[0] == i)
         ni = Z(o.f['_next_i'])
         q2 = z3.If(i + 1 < n, q, q + 1)
-        e.check(f'RpcMultiNode.request::ensures.invariant(k+1)@{exit_kind}_exit', z3.And(ni >= 0, ni < n, ni == (k + 1) - n * q2))
+        e.check(f'{tag}::ensures.invariant(k+1)@{exit_kind}_exit', z3.And(ni >= 0, ni < n, ni == (k + 1) - n * q2))
     return h
+
+
+def native_how(how):
+    """replay of a wrapper harness: the same history at the URL level, the deciding request issued through the wrapper"""
+    def nat(case):
+        from props.C28 import _run_urls, _want_urls
+        n = max(1, min(int(case.get('n', 2)), 6))
+        k = max(0, int(case.get('k', 0))) % (2 * n)
+        o = True if case.get('inner_ok', False) else ('rpc' if case.get('inner_raises_RpcError') else 'exc')
+        uris = [[f'http://n{i}.invalid' for i in range(n)]]
+        steps = [(0, 'request:GET', True)] * k + [(0, how, o), (0, 'request:GET', True)]
+        got, want = _run_urls(uris, steps), _want_urls(uris, steps)
+        case.clear()
+        case.update(uris=uris, steps=[list(x) for x in steps])
+        return got != want, f'HTTP requests went to {got}, expected {want} for steps {steps}'
+    return nat
 
 
 def native(case):
@@ -114,9 +169,6 @@ def run_P(ck):
     ck.assume('inner RpcNode.request is havocked (returns any value or raises); self.nodes is a list of n >= 1 nodes')
     ck.trust('PyVC encoding of the Python subset (DESIGN.md 3.2)')
     ck.trust('z3 5.1')
-    eng = Engine()
-    run_harness(ck, eng, harness(), 'RpcMultiNode.request')
-
     def search():
         for n in (2, 3):
             for ok, rpc in ((False, True), (False, False), (True, False)):
@@ -124,5 +176,8 @@ def run_P(ck):
                 if native(dict(c))[0]:
                     return c
         return None
-    report(ck, eng, [('', 'props.C28:replay', native, search)])
-    functions_interpreted(ck, eng)
+    for how in HOWS:
+        eng = Engine()
+        run_harness(ck, eng, harness(how), 'RpcMultiNode.' + how)
+        report(ck, eng, [('', 'props.C28:replay', native, search)] if how == 'request' else [('', 'props.C28:replay', native_how(how), None)])
+        functions_interpreted(ck, eng)
